@@ -229,6 +229,8 @@ class H(semh.Base):
         root, errors = hit
         if errors:
             raise Unsupported("a project file does not parse cleanly: " + str(key))
+        if len(key) == 2:
+            self.fulls[key[1]] = root.full
         return [EnumV("Option", 1, [root]), VecV([]), UNIT]
 
     def run(self, ex):
@@ -237,6 +239,7 @@ class H(semh.Base):
         name, (main, files) = self.task
         st = fam.state
         st["files"] = dict(files); st["reads"] = []
+        self.fulls = {}
         st["parse"] = lambda ex_, t: self.parse_tokens(ex_, (name, t.name), self.words(t.words))
         # ---- the project through the real include machinery
         main_ft = FileText("<main>", main)
@@ -324,6 +327,16 @@ class H(semh.Base):
         if got_io != len(unread):
             raise Violation(f"`{name}`: {len(unread)} unreadable include(s) {unread}, {got_io} read diagnostics")
         # one list per included file occurrence, tagged with its path, in include order (pre-order)
+        # every diagnostic of a list refers to a node of THAT file's tree (an unreadable file has no tree, so its list is empty)
+        main_full = self.fulls.get("<main>")
+        for li, (p, ks, el) in enumerate(lists):
+            fname = "<main>" if li == 0 else (p.key[-1] if isinstance(p, PathV) else str(p))
+            own = self.fulls.get(fname)
+            for e in el["list"]:
+                nf = getattr(e["node"], "full", None)
+                if own is None or nf is not own:
+                    owner = next((k for k, v in self.fulls.items() if v is nf), "?")
+                    raise Violation(f"`{name}`: the diagnostic list of `{fname}` holds a {e['error_kind'].v} whose node belongs to the tree of `{owner}`")
         tags = [p.key[-1] if isinstance(p, PathV) else str(p) for p, _, _ in lists[1:]]
         exp_tags = [f for f, ok in marks]
         if tags != exp_tags:
